@@ -25,6 +25,8 @@ type Case struct {
 	Sched []uint32 `json:"sched,omitempty"`
 	// Replay selects replay mode (draws come from Gen/Sched; exhausted => 0)
 	Replay bool `json:"replay,omitempty"`
+	// Race: executed by the race-detector build (bin/check's race pass); such a replay needs that build again
+	Race bool `json:"race,omitempty"`
 }
 
 // Outcome is what one execution produced.
@@ -127,6 +129,7 @@ func RunCase(t *testing.T, c Case, trace bool) *Outcome {
 		sc(x)
 	}()
 	out.GenUsed, out.SchedUsed = x.Gen.Used(), x.Sched.Used()
+	harvestRaces(out)
 	return out
 }
 
@@ -191,6 +194,7 @@ type ReplayFile struct {
 	Msg         string         `json:"msg"`
 	Fingerprint string         `json:"fingerprint"`
 	RepoHash    string         `json:"repo_hash"`
+	Race        bool           `json:"race,omitempty"`
 	Minimised   bool           `json:"minimised"`
 	Sample      interface{}    `json:"plan,omitempty"`
 	Log         []string       `json:"log_tail,omitempty"`
@@ -199,7 +203,7 @@ type ReplayFile struct {
 func (o *Outcome) ToReplay(repoHash string) *ReplayFile {
 	return &ReplayFile{Property: o.Case.Prop, Tier: o.Case.Tier, Seed: o.Case.Seed, Params: o.Case.Params,
 		Gen: append([]uint32(nil), o.gen.Rec...), Sched: append([]uint32(nil), o.sched.Rec...),
-		Class: o.Class, Msg: o.Msg, Fingerprint: o.Fingerprint, RepoHash: repoHash, Sample: o.Sample, Log: o.Log}
+		Class: o.Class, Msg: o.Msg, Fingerprint: o.Fingerprint, RepoHash: repoHash, Sample: o.Sample, Log: o.Log, Race: simrt.RaceBuild}
 }
 
 func (r *ReplayFile) Case() Case {
